@@ -353,7 +353,8 @@ class C18(Prop):
                 yield {"lines": [f"retools {rng.choice([0, 1, 2, 3, 4, 5, 6, -1])} {rng.choice([0, 1, 1, 2])} "
                                  f"{rng.choice([1, 1, 2])}"], "note": "re-entrant tool (oracle only)"}
                 continue
-            kind = rng.choice(["heal", "heal-live", "swarm", "swarm", "tools", "nucleus-live", "mix", "interleaved"])
+            kind = rng.choice(["heal", "heal-live", "swarm", "swarm", "tools", "nucleus-live", "mix", "interleaved",
+                               "two-slots"])
             if kind == "heal":
                 lines = [self._gen_heal(rng) for _ in range(rng.choice([1, 2]))]
             elif kind == "heal-live":
@@ -364,6 +365,17 @@ class C18(Prop):
                 lines = [self._gen_tools(rng) for _ in range(rng.choice([1, 2]))]
             elif kind == "nucleus-live":
                 lines = self._gen_nucleus_live(rng)
+            elif kind == "two-slots":
+                # two objects of the SAME class alive at once, with different limits, used alternately
+                gen = rng.choice([self._gen_heal_live, self._gen_swarm, self._gen_nucleus_live])
+                parts = [gen(rng), gen(rng)]
+                lines, cur = [], None
+                while any(parts):
+                    k = rng.choice([i for i in (0, 1) if parts[i]])
+                    if k != cur:
+                        lines.append(f"sel {k}")
+                        cur = k
+                    lines.append(parts[k].pop(0))
             elif kind == "interleaved":
                 # several live objects at once: the three histories are merged, each keeping its own order
                 parts = [self._gen_heal_live(rng), self._gen_swarm(rng), self._gen_nucleus_live(rng)]
@@ -1040,11 +1052,15 @@ class C18(Prop):
 
     def run_impl(self, case):
         obs, infos = [], []
-        st = {"swarm": None}
+        slots = [{"swarm": None}, {"swarm": None}]      # two sets of live objects side by side (`sel 0|1`)
+        st = slots[0]
         for line in case["lines"]:
             t = line.split()
             info = None
-            if len(t) == 6 and t[0] == "heal":
+            if len(t) == 2 and t[0] == "sel":
+                st = slots[1 if t[1] == "1" else 0]
+                o = "ok"
+            elif len(t) == 6 and t[0] == "heal":
                 o, info = self._heal(t)
             elif len(t) == 4 and t[0] == "swarm":
                 st["swarm"], st["box"] = self._new_swarm(lim(t[1]), lim(t[2]), flo(t[3]))
